@@ -478,3 +478,44 @@ def rule_capture(ctx) -> RuleResult:
         res.notes.append("no parameter annotated as a mutable container is stored into an attribute: rule not applicable")
         res.min_instances = 0
     return res
+
+
+# ---------------------------------------------------------------------------------------------
+# R-OPTIONS (C14): process-wide options of other libraries are only changed inside a `with`.
+# xr.set_options, dask.config.set, np.errstate / np.printoptions, warnings.catch_warnings ... are context managers: as the context
+# expression of a `with` they are restored on exit; called as a plain statement (xr.set_options(keep_attrs=...), np.seterr(...),
+# warnings.simplefilter(...), pd.set_option(...)) they change the state of the process for every later call -- results (attrs, error
+# behaviour, the plan dask picks) then depend on the call history.
+_SETTERS = ("xr.set_options", "xarray.set_options", "dask.config.set", "np.seterr", "numpy.seterr", "np.seterrcall", "np.set_printoptions",
+            "pd.set_option", "pandas.set_option", "warnings.simplefilter", "warnings.filterwarnings", "np.random.seed", "random.seed",
+            "os.environ.update", "os.putenv", "logging.basicConfig", "sys.setrecursionlimit")
+
+
+def rule_options(ctx) -> RuleResult:
+    res = RuleResult("R-OPTIONS", "process-wide options of other libraries are changed only as the context expression of a `with`", min_instances=0)
+    n = 0
+    for q, f in sorted(ctx.prog.funcs.items()):
+        if isinstance(f.node, ast.Lambda) or f.is_overload:
+            continue
+        with_exprs = set()
+        within_catch = []
+        for w in ast.walk(f.node):
+            if isinstance(w, (ast.With, ast.AsyncWith)):
+                for it in w.items:
+                    for x in ast.walk(it.context_expr):
+                        with_exprs.add(id(x))
+                if any("catch_warnings" in norm(it.context_expr) for it in w.items):
+                    within_catch.append(w)
+        for c in walk_own(f.node):
+            if not (isinstance(c, ast.Call) and norm(c.func) in _SETTERS):
+                continue
+            n += 1
+            scoped = id(c) in with_exprs or (norm(c.func).startswith("warnings.") and any(any(c is y for y in ast.walk(w)) for w in within_catch))
+            res.inst(f"{q}: {norm(c)[:50]}: scoped by a `with`: {scoped}", f"{q}|{norm(c)[:40]}")
+            if not scoped:
+                res.report(f"{q}|process-wide-option-set|{norm(c.func)}", f.where(c), q,
+                           f"'{norm(c)[:60]}' is a plain call: the option stays changed after {f.name} returns, so later calls (and other code in the process) behave differently "
+                           "depending on whether this path ran before them -- results depend on the call history")
+    if n == 0:
+        res.notes.append("no process-wide option setter is called (the self-test keeps a positive example)")
+    return res
